@@ -23,10 +23,10 @@ Definition lv_mdec : list raw_handler := [(["UnicodeDecodeError"], (false, "rais
 Definition sv : string * list raw_handler := ("serve", lv_serve).
 Definition rd : raw_stack := [("serve_one", lv_so_read); sv].
 
-Definition mk_tables (dec : raw_stack) (mdec_fn : string) (attach : list (string * list raw_handler)) : tables :=
+Definition mk_tables (dec : raw_stack) (mdec_fn : string) (attach trace : list (string * list raw_handler)) : tables :=
   [("open", rd); ("read", rd); ("drain", rd);
    ("meta_rpc", dec); ("meta_version", dec); ("method_decode", (mdec_fn, lv_mdec) :: dec);
-   ("tp_decode", dec); ("ts_decode", dec); ("ext", dec);
+   ("tp_decode", (trace ++ dec)%list); ("ts_decode", (trace ++ dec)%list); ("ext", dec);
    ("rr_shm_meta", ("_maybe_attach_shm", lv_shm_meta) :: dec); ("rr_attach", (attach ++ dec)%list);
    ("resolve_shm", dec); ("rows", dec); ("as_py", dec); ("release", dec);
    ("check_version", [("serve_one", lv_ver); sv]);
@@ -35,15 +35,23 @@ Definition mk_tables (dec : raw_stack) (mdec_fn : string) (attach : list (string
    ("refresh_shm_meta", [("_maybe_attach_shm", lv_shm_meta); sv]); ("refresh_attach", (attach ++ [sv])%list);
    ("dyn_shm_meta", [("_maybe_attach_shm", lv_shm_meta); sv]); ("dyn_attach", (attach ++ [sv])%list)].
 
-(* after the repair: _decode_request runs under a catch-all in _read_request, _maybe_attach_shm guards the attach *)
+(* after the repair (commit "a well-framed but undecodable request ended the socket connection without a reply"):
+   on the socket path (contain_decode_errors=True) _decode_request runs under a catch-all in _read_request,
+   _maybe_attach_shm guards the attach, the trace headers are decoded under their own guard *)
 Definition repaired_tables : tables :=
-  mk_tables (("_read_request", lv_wrap) :: rd) "_decode_request" [("_maybe_attach_shm", lv_attach)].
+  mk_tables (("_read_request", lv_wrap) :: rd) "_decode_request" [("_maybe_attach_shm", lv_attach)] [("_decode_request", lv_mdec)].
+(* the same source when _read_request is called WITHOUT contain_decode_errors=True (what the HTTP shells do, and what
+   serve_one would do if it stopped passing the flag): the catch-all level is gone *)
+Definition repaired_flag_off_tables : tables :=
+  mk_tables rd "_decode_request" [("_maybe_attach_shm", lv_attach)] [("_decode_request", lv_mdec)].
 (* before: nothing between the decoding steps and serve_one's (ArrowInvalid | VersionError, RpcError) handlers *)
-Definition old_tables : tables := mk_tables rd "_read_request" [].
+Definition old_tables : tables := mk_tables rd "_read_request" [] [].
 
 Lemma repaired_covers : covers repaired_tables = true.
 Proof. vm_compute. reflexivity. Qed.
 Lemma old_does_not_cover : covers old_tables = false.
+Proof. vm_compute. reflexivity. Qed.
+Lemma flag_off_does_not_cover : covers repaired_flag_off_tables = false.
 Proof. vm_compute. reflexivity. Qed.
 
 Open Scope N_scope.
